@@ -138,6 +138,9 @@ def evalHuge (st : DState) (d : Nat × Bool × List Nat) (t : List String) : Eva
   let both (s : String) (r : String) : Eval := { st := st.note r, model := s, spec := some s }
   match t with
   | ["len"] => both (rNat len) "bv.huge"
+  -- serialize + load of any bitvector is the identity and writes `size_in_bytes` bytes (Props/C06 round trip, for all
+  -- vectors): the prediction for a vector too large to materialise in the driver
+  | ["hreload"] => both "ok 1 1" "bv.huge.reload"
   | ["ones"] => both (rNat (Huge.ones len fill flips)) "bv.huge"
   | ["zeros"] => both (rNat (len - Huge.ones len fill flips)) "bv.huge"
   | ["get", i] => let i := num i
@@ -183,6 +186,10 @@ def evalBv (st : DState) (name : String) (t : List String) : Eval :=
   | ["from_bits"] => put ⟨BitVector.ofRaw RawVec.empty, []⟩
   | ["from_bits", s] => let B := s.toList.map (· == '1')
     put ⟨BitVector.ofRaw (RawVec.ofBits B), B⟩ "bv.from_bits"
+  | ["of_raw", src] =>
+    (match st.raws[src]? with
+     | some o => put ⟨BitVector.ofRaw o.m, o.s⟩ "bv.of_raw"
+     | none => { st := st, model := "panic:no-object" })
   | [op, src] =>
     if op == "copy_of" || op == "from" then
       match refBits st src with
